@@ -88,6 +88,21 @@ class Env:
         self.vars[name] = value
 
 
+def _returns_a_value(node) -> bool:
+    """Does this function definition contain `return <something other than None>` or a yield (nested definitions excluded)?"""
+    stack = list(getattr(node, "body", []))
+    while stack:
+        n = stack.pop()
+        if isinstance(n, (ast.FunctionDef, ast.AsyncFunctionDef, ast.ClassDef, ast.Lambda)):
+            continue
+        if isinstance(n, ast.Return) and n.value is not None and not (isinstance(n.value, ast.Constant) and n.value.value is None):
+            return True
+        if isinstance(n, (ast.Yield, ast.YieldFrom)):
+            return True
+        stack.extend(ast.iter_child_nodes(n))
+    return False
+
+
 _BUILTIN_EXC_TREE = {
     "BaseException": [],
     "Exception": ["BaseException"],
@@ -725,6 +740,10 @@ class Interp:
             result = c.returns(self, env.vars)  # custom constructor of the abstract result
         elif c.returns is not None:
             result = c.returns.make(self, self.path.fresh(f"ret:{fq.split(':')[-1]}"))
+        elif fn is not None and _returns_a_value(fn.node):
+            # the contract says nothing about the result although the real function returns one: any inspection of it is out of subset
+            # (a silent None here made callers' contracts vacuous)
+            result = Unknown(f"result of {fq}: its contract has no `returns`")
         else:
             result = None
         env.vars["result"] = result
@@ -1898,8 +1917,24 @@ class Interp:
         raise OutOfSubset(f"subscript store on {obj!r}")
 
     # ------------------------------------------------------------------ spec helper functions
+    cover_ctx = None  # set by verify while a top-level post clause is evaluated: implications record whether their antecedent is reachable
+
+    def _cover(self, n, a):
+        if self.cover_ctx is None or getattr(self, "_in_quant", 0):
+            return
+        key = (self.cover_ctx, ast.unparse(n.args[0])[:160])
+        if self.path.covers.get(key):
+            return
+        if isinstance(a, bool):
+            reach = a
+        else:
+            self.path.solver.set("timeout", 2000)
+            reach = self.path.solver.check(a) != z3.unsat  # unknown counts as reachable (the guard only reports what is certainly dead)
+        self.path.covers[key] = bool(reach) or self.path.covers.get(key, False)
+
     def s_implies(self, n, env):
         a = truthy(self.eval(n.args[0], env))
+        self._cover(n, a)
         if a is False:
             return True
         if not isinstance(a, bool) and not getattr(self, "_in_quant", 0) and any(isinstance(x, ast.Subscript) for x in ast.walk(n.args[1])):
